@@ -111,17 +111,26 @@ fn positive_case(t: &mut Tape, rec: &mut Rec, recipients: &[Kind]) -> CaseResult
     if pick < cfg.recipients.len() {
         let (k, anon) = cfg.recipients[pick];
         let z = zoo::get(k);
-        let locked = t.bool();
+        // lock state of the presented key: 0 unprotected, 1 all locked, 2 only the (decrypting)
+        // subkey locked, 3 only the primary key locked
+        let lock_state = if z.secret.secret_subkeys.is_empty() { t.below(2) } else { [0, 1, 0, 1, 2, 3][t.below(6)] };
+        let locked = lock_state == 1 || lock_state == 2;
+        let presented: &SignedSecretKey = match lock_state {
+            0 => &z.secret,
+            1 => &z.locked,
+            2 => &z.sub_locked,
+            _ => &z.prim_locked,
+        };
         // position of the real key among the unrelated ones
         let pos = t.below(unrel.len() + 1);
         for (i, u) in unrel.iter().enumerate() {
             if i == pos {
-                keys.push(if locked { &z.locked } else { &z.secret });
+                keys.push(presented);
             }
             keys.push(&zoo::get(*u).secret);
         }
         if pos >= unrel.len() {
-            keys.push(if locked { &z.locked } else { &z.secret });
+            keys.push(presented);
         }
         // candidate key passwords: wrong ones first
         if locked {
@@ -130,15 +139,20 @@ fn positive_case(t: &mut Tape, rec: &mut Rec, recipients: &[Kind]) -> CaseResult
             }
             key_pws.push(Password::from(zoo::LOCK_PW));
         } else {
-            key_pws.push(Password::empty());
+            // the decrypting subkey is unprotected: no key password is needed, any may be present
+            match t.below(3) {
+                0 => {}
+                1 => key_pws.push(Password::empty()),
+                _ => key_pws.push(Password::from(zoo::LOCK_PW)),
+            }
         }
+        rec.label(["present:key-unprotected", "present:key-all-locked", "present:key-only-subkey-locked", "present:key-only-primary-locked"][lock_state]);
         rec.label(if anon { "present:anonymous-recipient" } else { "present:addressed-recipient" });
-        rec.label(if locked { "present:locked-key" } else { "present:unlocked-key" });
         rec.label(format!("present:unrelated-keys={}", unrel.len()));
         if anon && unrel.iter().any(|u| zoo::get(*u).secret.secret_subkeys.first().map(|s| s.key.algorithm()) == z.secret.secret_subkeys.first().map(|s| s.key.algorithm())) {
             rec.label("present:wildcard-with-same-algorithm-decoy");
         }
-        desc = format!("recipient #{pick} {k:?}{} {} at position {pos} among unrelated {unrel:?}", if anon { " (anonymous)" } else { "" }, if locked { "locked" } else { "unlocked" });
+        desc = format!("recipient #{pick} {k:?}{} {} at position {pos} among unrelated {unrel:?}", if anon { " (anonymous)" } else { "" }, ["unprotected", "locked", "with only the subkey locked", "with only the primary key locked"][lock_state]);
     } else {
         let pi = pick - cfg.recipients.len();
         let right = Password::from(&cfg.passwords[pi].pw[..]);
